@@ -372,7 +372,7 @@ class BaseMLSupervisedAlgo(BaseMLAlgo):
         for name in self.__groups_to_names[self.__get_group_name(input_group)]:
             if name not in names:
                 transformed_data.append(
-                    dataset.get_view(variable_names=name).to_numpy()
+                    dataset.get_view(variable_names=name).to_numpy()[indices]
                 )
                 continue
 
